@@ -518,6 +518,11 @@ impl OutputFormat for IcyDraw {
                                     let mut layer = Layer::new(title, (0, 0));
 
                                     o += size;
+                                    // role, unused, mode, color, flags, transparency, offset, size, default font page, data length
+                                    const LAYER_RECORD_SIZE: usize = 1 + 4 + 1 + 4 + 4 + 1 + 4 + 4 + 4 + 4 + 2 + 8;
+                                    if bytes.len() - o < LAYER_RECORD_SIZE {
+                                        return Err(LoadingError::FileTooShort.into());
+                                    }
                                     let role = bytes[o];
                                     o += 1;
                                     if role == 1 {
@@ -578,6 +583,10 @@ impl OutputFormat for IcyDraw {
                                     o += 8;
 
                                     if role == 1 {
+                                        // image size and scale
+                                        if bytes.len() - o < 16 {
+                                            return Err(LoadingError::FileTooShort.into());
+                                        }
                                         let width: i32 = u32::from_le_bytes(bytes[o..(o + 4)].try_into().unwrap()) as i32;
                                         o += 4;
                                         let height: i32 = u32::from_le_bytes(bytes[o..(o + 4)].try_into().unwrap()) as i32;
